@@ -202,6 +202,8 @@ package dnsserver
 //@ before FBDNSDB.writeAndLog#1 assert[hit-opt] (uf.edns0of(r) != nil) == (o != nil)
 //@ before FBDNSDB.writeAndLog#1 assert[hit-ecs] o != nil ==> len(o.Option) == ite(ecs != nil, 1, 0)
 //@ before FBDNSDB.writeAndLog#2 assert[refused] m != nil && m.Rcode == dns.RcodeRefused && m.Id == r.Id && m.Response && !ns && !auth && len(m.Answer) == 0
+//@ before FBDNSDB.writeAndLog#2 assert[refused-opt] (uf.edns0of(r) != nil) == (o != nil) && len(m.Extra) == ite(o != nil, 1, 0)
+//@ before FBDNSDB.writeAndLog#2 assert[refused-ecs] o != nil ==> len(o.Option) == ite(ecs != nil, 1, 0)
 //@ before FBDNSDB.writeAndLog#3 assert[shape] a != nil && a.Id == r.Id && a.Response
 //@ before FBDNSDB.writeAndLog#3 assert[auth] a.Authoritative == auth
 //@ before FBDNSDB.writeAndLog#3 assert[rcode] a.Rcode == dns.RcodeSuccess || (a.Rcode == dns.RcodeNameError && auth && len(a.Answer) == 0)
